@@ -104,8 +104,8 @@ Fixpoint decode (l : list Z) : option (list ev) :=
   | n :: t => match ev_of n, decode t with Some e, Some r => Some (e :: r) | _, _ => None end
   end.
 
-(* a trace = list of goroutines; exactly one main; every goroutine accepted *)
+(* a trace = list of goroutines; at most one main; every goroutine accepted *)
 Definition is_main (l : list Z) : bool := match l with 16%Z :: _ => true | _ => false end.
 Definition chk (tr : list (list Z)) : bool :=
   forallb (fun g => match decode g with Some l => goroutine_ok l | None => false end) tr
-  && Nat.eqb (length (filter is_main tr)) 1.
+  && Nat.leb (length (filter is_main tr)) 1.   (* at most one main; it may not have reached its select yet when a fatal built-in ends the process *)
